@@ -144,6 +144,34 @@ func c12Birth(w *W, st ref.Stamp, class string) {
 				}
 			}
 			w.Eval(5)
+			// the By(n) variants list the same periods, only more or fewer of them
+			for _, n := range []int{1, 3, 12} {
+				by := yun.GetDaYunBy(n)
+				if len(by) != n {
+					w.Violatef("dayun", fmt.Sprintf("%s/by%d/len", tag, n), "GetDaYunBy(%d) has %d entries", n, len(by))
+					continue
+				}
+				for i, dy := range by {
+					if i > 0 {
+						step := i
+						if !fw {
+							step = -i
+						}
+						if dy.GetIndex() != i || dy.GetStartYear() != ss.GetYear()+(i-1)*10 || dy.GetGanZhi() != ref.Pair60(mIdx+step+600) {
+							w.Violatef("dayun", fmt.Sprintf("%s/by%d/%d", tag, n, i), "GetDaYunBy(%d)[%d]: index %d start %d pillar %s", n, i, dy.GetIndex(), dy.GetStartYear(), dy.GetGanZhi())
+						}
+						for _, k := range []int{2, 13} {
+							ln := dy.GetLiuNianBy(k)
+							xy := dy.GetXiaoYunBy(k)
+							if len(ln) != k || len(xy) != k || ln[k-1].GetYear() != dy.GetStartYear()+k-1 || ln[k-1].GetGanZhi() != ref.Pair60(ref.YearPair(dy.GetStartYear()+k-1)) || xy[k-1].GetYear() != dy.GetStartYear()+k-1 {
+								w.Violatef("liunian", fmt.Sprintf("%s/by%d/%d/ln%d", tag, n, i, k), "GetLiuNianBy(%d)/GetXiaoYunBy(%d) of great fortune %d: %d/%d entries, last year %d pillar %s", k, k, i, len(ln), len(xy), ln[len(ln)-1].GetYear(), ln[len(ln)-1].GetGanZhi())
+							}
+						}
+						break // one great fortune per n is enough
+					}
+				}
+				w.Eval(2)
+			}
 			startYear := ss.GetYear()
 			dys := yun.GetDaYun()
 			if len(dys) != 10 {
@@ -244,6 +272,7 @@ func c12Birth(w *W, st ref.Stamp, class string) {
 func c12Run(w *W, c Case) {
 	y := c.A[0]
 	w.Class(fmt.Sprintf("century%02d", y/100))
+	historyTouch(w, y)
 	tbl := calendar.NewSolarFromYmd(y, 6, 15).GetLunar().GetJieQiTable()
 	lo := ref.Stamp{Y: y, M: 1, D: 1}.Secs()
 	hi := ref.Stamp{Y: y, M: 12, D: 31, H: 23, Mi: 59, S: 59}.Secs()
